@@ -151,7 +151,7 @@ def timed_check(solver, timeout_ms):
 
 
 class Engine:
-    def __init__(self, assumptions=(), timeout_ms=20000, max_paths=200000):
+    def __init__(self, assumptions=(), timeout_ms=20000, max_paths=3000000):
         self.assumptions = list(assumptions)
         self.timeout_ms = timeout_ms
         self.max_paths = max_paths
@@ -214,6 +214,18 @@ class Engine:
             r = timed_check(self.solver, self.timeout_ms)
         finally:
             self.solver.pop()
+            STATS.queries += 1
+            STATS.solver_s += time.perf_counter() - t0
+        if r == z3.unknown:
+            # one more attempt in a fresh, non-incremental solver with another seed and twice the budget (a loaded machine or an unlucky
+            # nlsat run must not turn into an inconclusive case)
+            t0 = time.perf_counter()
+            s2 = z3.Solver()
+            s2.set('timeout', 2 * self.timeout_ms)
+            s2.set('random_seed', 23)
+            for a in list(self.assumptions) + sx.const_assumptions() + list(self.pc) + sx.path_defs() + list(extra):
+                s2.add(a)
+            r = timed_check(s2, 2 * self.timeout_ms)
             STATS.queries += 1
             STATS.solver_s += time.perf_counter() - t0
         return r
